@@ -35,8 +35,8 @@ def toSizeT (x : Int) : Nat := (x % (two64 : Int)).toNat
 
 /-- the `(int)` cast of an `int64_t` -/
 def toInt32 (x : Int) : Int :=
-  let m := x % (2 ^ 32 : Int)
-  if m ≥ 2 ^ 31 then m - 2 ^ 32 else m
+  let m := x % (2 ^ intBits : Int)                  -- width of `int` regenerated (Gen.C04.intBits)
+  if m ≥ 2 ^ (intBits - 1) then m - 2 ^ intBits else m
 
 /-- the `(unsigned short)` cast that fills `array_t.size` -/
 def toArrSize (n : Nat) : Nat := n % 2 ^ arraySizeBits
@@ -51,7 +51,7 @@ def allocateArray (n : Int) (limit : Int) : SzR :=
   if u > toSizeT limit then .err else .ok (toArrSize u)
 
 /-- F_AGGREGATE: `allocate_empty_array ((int) offset)`, offset an unsigned short element count -/
-def aggregateArray (n : Nat) (limit : Int) : SzR := allocateArray (n % 2 ^ 16 : Nat) limit
+def aggregateArray (n : Nat) (limit : Int) : SzR := allocateArray (n % 2 ^ aggregateCountBits : Nat) limit
 
 /-- add_array (p, r): `res = p->size + r->size; if (res < 0 || res > MAX) error`; sizes are 16-bit fields -/
 def addArray (a b : Nat) (limit : Int) : SzR :=
@@ -199,5 +199,30 @@ def replaceFamilySteps (a b r : Nat) : List RStep :=
 def replaceFamily (a b r : Nat) (limit : Nat) : SzR :=
   let tail := if b = 0 then a % 2 else 0
   replaceFinish limit tail (replaceRun limit (replaceFamilySteps a b r) 0)
+
+/-! ### round 4: mapping * mapping and the efuns that were "not analysed" (regexp, reg_assoc, restore_variable) -/
+
+/-- m1 * m2 and m1 *= m2 (compose_mapping, lib/lpc/mapping.c): every node of (a copy of) m1 whose value is not a key of
+    m2 is unlinked and counted in the local `deleted`, then `m1->count -= deleted`.  `kept` nodes survive.  `bits` is the
+    width of `deleted` (an `unsigned short` before the fix, an `unsigned int` now: `composeDeletedBits`). -/
+def composeMappingW (bits : Nat) (c1 kept : Nat) : SzR :=
+  let deleted := c1 - min kept c1
+  .ok (c1 - deleted % 2 ^ bits)
+
+def composeMapping (c1 kept : Nat) : SzR := composeMappingW composeDeletedBits c1 kept
+
+/-- regexp (string *, pattern, flag) (match_regexp, lib/lpc/array.c): `allocate_empty_array (num_match << flag)` with
+    `flag &= 1` (flag 1: an index is added per match) -/
+def matchRegexp (matched : Nat) (flag : Int) (limit : Int) : SzR :=
+  allocateArray ((matched <<< (flag.toNat % 2) : Nat)) limit
+
+/-- reg_assoc: both result arrays are `allocate_empty_array (2 * num_match + 1)` -/
+def regAssoc (numMatch : Nat) (limit : Int) : SzR := allocateArray ((2 * numMatch + 1 : Nat)) limit
+
+/-- restore_variable of an array text: `allocate_array (size)` with the element count restore_size found -/
+def restoreArray (n : Nat) (limit : Int) : SzR := allocateArray (n : Nat) limit
+
+/-- restore_variable of a mapping text with n distinct keys: `if (++count > MAX) mapping_too_large ()` per pair -/
+def restoreMapping (n : Nat) (limit : Int) : SzR := mapInsertMany 0 n limit
 
 end NV.C04
